@@ -321,6 +321,35 @@ type anyCase struct {
 	ShapeIx int      `json:"shape_index"`
 	Assigns []int    `json:"leaf_assignments"`
 	Names   []string `json:"names"`
+	// Static: the leaves are the repository's own static authorizers (auth.NewStaticAuthorizer with a matcher
+	// for the names the assignment allows) instead of scripted ones; only for assignments without failures.
+	Static bool `json:"static_leaves,omitempty"`
+}
+
+func staticFor(ans map[string]int) auth.Authorizer {
+	return auth.NewStaticAuthorizer(func(in digest.InstanceName) bool { return ans[in.String()] == allow })
+}
+
+func (n *node) buildStatic(leaves []*scripted) auth.Authorizer {
+	if n.leaf >= 0 {
+		return staticFor(leaves[n.leaf].ans)
+	}
+	var cs []auth.Authorizer
+	for _, c := range n.children {
+		cs = append(cs, c.buildStatic(leaves))
+	}
+	return auth.NewAnyAuthorizer(cs)
+}
+
+func noFailures(assigns []int) bool {
+	for _, a := range assigns {
+		for _, v := range assignment(a) {
+			if v == fail {
+				return false
+			}
+		}
+	}
+	return true
 }
 
 func runAny(sh *node, c anyCase) (msg, sig, outcome string) {
@@ -330,6 +359,9 @@ func runAny(sh *node, c anyCase) (msg, sig, outcome string) {
 		leaves[i] = &scripted{id: fmt.Sprintf("L%d", i), ans: assignment(c.Assigns[i])}
 	}
 	a := sh.build(leaves)
+	if c.Static {
+		a = sh.buildStatic(leaves)
+	}
 	ins := make([]digest.InstanceName, len(c.Names))
 	for i, n := range c.Names {
 		ins[i] = sim.Instance(n)
@@ -479,7 +511,7 @@ func main() {
 	// ---- any ----
 	if r.Want("any") {
 		maxLeaves := ev.Pick(r, 3, 4)
-		sub := r.NewSub("any", "venum", fmt.Sprintf("all any-trees of depth<=2 with <=%d scripted leaves x 27^leaves answer assignments x 15 ordered name lists", maxLeaves))
+		sub := r.NewSub("any", "venum", fmt.Sprintf("all any-trees of depth<=2 with <=%d scripted leaves x 27^leaves answer assignments x 15 ordered name lists; assignments without failures additionally with the repository's static authorizers as leaves", maxLeaves))
 		done := sub.Timer()
 		var outcomes ev.Set
 		lists := nameLists()
@@ -521,6 +553,19 @@ func main() {
 					outcomes.Add(oc)
 					if msg != "" {
 						r.Violate(ev.Violation{Signature: sig, Sub: "any", Message: msg, Case: c})
+					}
+					if nl > 0 && noFailures(assigns) {
+						cs := c
+						cs.Static = true
+						msg, sig, oc := runAny(sh, cs)
+						sub.Evaluations++
+						if disagree {
+							sub.Nontrivial++
+						}
+						outcomes.Add("static:" + oc)
+						if msg != "" {
+							r.Violate(ev.Violation{Signature: "static-leaves:" + sig, Sub: "any", Message: "(leaves are static authorizers) " + msg, Case: cs})
+						}
 					}
 					if sub.Evaluations%400009 == 7 {
 						r.Sample(map[string]any{"sub": "any", "case": c, "outcome": oc})
